@@ -49,3 +49,19 @@ Definition py_enum_getitem (cls k : pyval) : res pyval :=
   | PList _, _ => Raise KeyError
   | _, _ => Raise Unmodelled
   end.
+
+(* any(x is v for v in c): identity with one of the elements of the VALUE c.  The model knows the
+   identity of enum members only (one object per class and name; a value of any other kind is never
+   that object); whether two equal strs / ints are one object is not predicted. *)
+Definition py_is_member (x v : pyval) : res bool :=
+  match v with
+  | PEnum c n _ =>
+      Ok (match x with PEnum c' n' _ => pystr_eqb c' c && pystr_eqb n' n | _ => false end)
+  | _ => Raise Unmodelled
+  end.
+
+Definition py_any_is (x c : pyval) : res bool :=
+  match c with
+  | PList l | PTuple l => r <- mapM (py_is_member x) l ;; Ok (existsb (fun b => b) r)
+  | _ => Raise Unmodelled
+  end.
